@@ -96,6 +96,20 @@ Definition matches (fixed : bool) (m : matcher) (key : list N) : bool :=
   | MFull => str_eqb key (snd m)
   end.
 
+(* formatting.rs write_unit_suffix; the unit is given by its Unit::as_str name.  "count" has no suffix,
+   "percent" has the suffix "ratio", every other unit its own name *)
+Definition unit_suffix (u : list N) : option (list N) :=
+  if str_eqb u [99; 111; 117; 110; 116] then None
+  else if str_eqb u [112; 101; 114; 99; 101; 110; 116] then Some [114; 97; 116; 105; 111]
+  else Some u.
+(* recorder.rs Inner::write_family_help: the family name used on the HELP and TYPE lines.
+   [usfx] = set_enable_unit_suffix, [unit] = the unit the family was described with (None: not described) *)
+Definition family_name (usfx : bool) (unit : option (list N)) (name : list N) : list N :=
+  match (if usfx then unit else None) with
+  | Some u => match unit_suffix u with Some sfx => name ++ 95 :: sfx | None => name end
+  | None => name
+  end.
+
 (* (4) metrics-util/src/quantile.rs  Quantile::new: the label from the two Display renderings
    (oracle inputs: fc = format!("{}", clamped), fd = format!("{}", clamped * 100.0)) *)
 Definition qlabel (fc fd : list N) : list N :=
@@ -208,6 +222,13 @@ Definition get_distribution_type (d : dbuilder) (name : list N) : bool :=
   | Some _ => true
   | None => match first_match (db_fixed d) name (db_overrides d) with Some _ => true | None => false end
   end.
+
+(* recorder.rs Inner::render for one histogram family: the TYPE line carries the family name and the
+   type asked for the METRIC name; the series rendered are those of the distribution created for the
+   METRIC name when samples were drained *)
+Definition render_family (d : dbuilder) (usfx : bool) (unit : option (list N)) (key : list N)
+  : list N * bool * option (list Fl) :=
+  (family_name usfx unit key, get_distribution_type d key, get_distribution d key).
 
 (* ------------------------------------------------------------------------ (3) RollingSummary *)
 (* Summary::add drops infinite values; a sketch is the list of values it holds, in insertion order *)
